@@ -107,7 +107,7 @@ def build(config, repo=None, out_dir=None, target_dir=None):
     os.makedirs(out_dir, exist_ok=True)
     env = dict(os.environ)
     env["LD_LIBRARY_PATH"] = _sysroot() + "/lib" + (":" + env["LD_LIBRARY_PATH"] if env.get("LD_LIBRARY_PATH") else "")
-    env["RUSTFLAGS"] = ("-Zmir-opt-level=0 -Awarnings -Zub-checks=no " + extra_flags).strip()
+    env["RUSTFLAGS"] = ("-Zmir-opt-level=0 -Awarnings -Along_running_const_eval -Zub-checks=no " + extra_flags).strip()
     env["RUSTC_WORKSPACE_WRAPPER"] = DRIVER
     env["ZFACTS_OUT"] = out_dir
     env["CARGO_TARGET_DIR"] = target_dir
